@@ -500,6 +500,19 @@ func byteMutation(r *rand.Rand, in *Input) string {
 	}
 }
 
+// depthOf / scannerClass read the tag of a scanner case ("d3/emptyArray/sepBefore/nn/dup")
+func depthOf(tag string) int {
+	if len(tag) > 1 && tag[0] == 'd' {
+		return int(tag[1] - '0')
+	}
+	return 0
+}
+
+func scannerClass(tag string) string {
+	parts := strings.Split(tag, "/")
+	return parts[0] + "/" + parts[len(parts)-1]
+}
+
 // payload mutations that need a request with annotations to bite
 var annotationMutations = map[int]bool{3: true, 4: true, 7: true, 20: true}
 
@@ -535,6 +548,22 @@ func Run(c *common.Ctx) error {
 					in.SigMode, in.Chain = "otherKey", "otherKey"
 					c.Count("gen=otherKeyThroughout")
 					runCase(c, w, in)
+					// key id echoes: a wrong id at describe-key (the scripted plugin picks: another id, empty, the
+					// requested id with a suffix, another case), and a wrong id at generate-signature together
+					// with a consistent use of the other key
+					if cp == "raw" {
+						for rep := 0; rep < 3; rep++ {
+							in = base(r, api, cp, f, k)
+							in.DkKeyIdOk = false
+							c.Count("gen=dkKeyId")
+							runCase(c, w, in)
+							in = base(r, api, cp, f, k)
+							in.GsKeyIdOk = false
+							in.SigMode, in.Chain = "otherKey", "otherKey"
+							c.Count("gen=gsKeyId+otherKeyThroughout")
+							runCase(c, w, in)
+						}
+					}
 					// chain of the next key spec, DescribeKey claiming that spec too
 					in = base(r, api, cp, f, k)
 					in.Chain, in.DkKeySpec = "otherSpec", specOf[nextKey[k]]
@@ -645,6 +674,35 @@ func Run(c *common.Ctx) error {
 			}
 		}
 	}
+	// 2e. the duplicate-name scanner's state machine: names repeated (and controls) at every depth, around
+	// members of every value shape (scanner.go)
+	for fi, f := range formats {
+		in0 := base(r, "sign", "envelope", f, "ec256")
+		in0.Req.Annotations = [][2]string{}
+		cases := scannerCases(in0.Req)
+		for ci, sc := range cases {
+			if !c.Thorough() && depthOf(sc.tag) >= 3 && (ci+fi)%2 == 1 { // quick tier: half of the deep grid per format
+				continue
+			}
+			in := base(r, apis[ci%2], "envelope", f, pick(r, "ec256", "ec256", "ec384", "rsa2048"))
+			in.Req = in0.Req
+			in.Payload = sc.payload
+			in.Spaced = ci%5 == 0
+			c.Count("gen=scanner:" + scannerClass(sc.tag))
+			runCase(c, w, in)
+		}
+		reps := 150
+		if c.Thorough() {
+			reps = 3000
+		}
+		for k := 0; k < reps; k++ {
+			in := base(r, apis[k%2], "envelope", f, "ec256")
+			in.Req.Annotations = [][2]string{}
+			in.Payload = randomScannerPayload(r, in.Req)
+			c.Count("gen=scanner:random")
+			runCase(c, w, in)
+		}
+	}
 	// 2c. an original annotation with an EMPTY value is dropped / kept / nulled (a missing key and an
 	// empty value must not be confused)
 	for _, f := range formats {
@@ -731,7 +789,7 @@ func Run(c *common.Ctx) error {
 		}
 	}
 	// 3. random combinations
-	total := 3000
+	total := 5000
 	if c.Thorough() {
 		total = 40000
 	}
